@@ -380,15 +380,35 @@ type faultReader struct {
 	failAt int
 	pos    int
 	issued bool
+	// with: the error is reported once, together with the last bytes before the fault; afterwards the
+	// reader answers io.EOF (a one-shot fault)
+	with bool
+	done bool
+	// sticky: the error is repeated on later calls (readers built on io.ReadFull rely on that: the standard
+	// library drops an error that arrives together with the last requested byte)
+	sticky bool
 }
 
 func (f *faultReader) Read(p []byte) (int, error) {
+	if f.done {
+		if f.sticky {
+			return 0, errInjected
+		}
+		return 0, io.EOF
+	}
 	if f.pos >= f.failAt {
 		f.issued = true
+		if f.with {
+			f.done = true
+		}
 		return 0, errInjected
 	}
 	n := copy(p, f.data[f.pos:f.failAt])
 	f.pos += n
+	if f.with && f.pos >= f.failAt {
+		f.issued, f.done = true, true
+		return n, errInjected
+	}
 	return n, nil
 }
 
@@ -433,9 +453,9 @@ func suiteFaults(o *suiteOut, r *rng, tier string, n int) {
 		}
 		for k := 0; k <= len(in.data); k += step {
 			// a read fault at offset k
-			fr := &faultReader{data: in.data, failAt: k}
+			fr := &faultReader{data: in.data, failAt: k, with: k%3 == 1, sticky: in.kind != "ps" && in.kind != "cmap"}
 			got := runInput(in.kind, fr)
-			line := fmt.Sprintf("fault read %s %d %d", in.kind, idx, k)
+			line := fmt.Sprintf("fault read %s %d %d with=%v", in.kind, idx, k, fr.with)
 			if strings.HasPrefix(got, "panic") {
 				o.fail("C13", "a read fault causes no panic", line, "error", got[:min(200, len(got))])
 			}
